@@ -87,6 +87,34 @@ MULTI: dict[str, tuple[str, list[tuple[str, str]], str]] = {
         ],
         "a map that is too short is removed from the mapper before the call is refused: the next build treats the reaction as unmapped and succeeds",
     ),
+    # ---- the LinearLabelMapper OBJECT over several build_model calls (closing pass for seeded C16-9; C16) ----
+    "lin-maps-frozen-at-first-build": (
+        LIN,
+        [("    label_maps: dict[str, list[int]] = field(default_factory=dict)\n\n    def get_isotopomers",
+          "    label_maps: dict[str, list[int]] = field(default_factory=dict)\n"
+          "    _maps_seen: dict[str, list[int]] | None = field(default=None, init=False, repr=False, compare=False)\n\n    def get_isotopomers"),
+         ("        for rxn_name, label_map in self.label_maps.items():\n",
+          "        if self._maps_seen is None:\n            self._maps_seen = {k: list(v) for k, v in self.label_maps.items()}\n"
+          "        for rxn_name, label_map in self._maps_seen.items():\n")],
+        "the maps are copied onto the mapper at the first build and never looked at again: any later change of label_maps (in place or a new dict) is ignored",
+    ),
+    "lin-positions-cached": (
+        LIN,
+        [("    label_maps: dict[str, list[int]] = field(default_factory=dict)\n\n    def get_isotopomers",
+          "    label_maps: dict[str, list[int]] = field(default_factory=dict)\n"
+          "    _positions: dict[str, list[str]] | None = field(default=None, init=False, repr=False, compare=False)\n\n    def get_isotopomers"),
+         ("            for name, num in self.label_variables.items()\n        }\n        variables = {k: 0.0 for iso in isotopomers.values() for k in iso}\n",
+          "            for name, num in self.label_variables.items()\n        }\n"
+          "        if self._positions is None:\n            self._positions = isotopomers\n        isotopomers = self._positions\n"
+          "        variables = {k: 0.0 for iso in isotopomers.values() for k in iso}\n")],
+        "the position names per compound are kept from the first build: a label count changed on the mapper afterwards is ignored",
+    ),
+    "lin-build-consumes-maps": (
+        LIN,
+        [("        for rxn_name, label_map in self.label_maps.items():\n",
+          "        for rxn_name in list(self.label_maps):\n            label_map = self.label_maps.pop(rxn_name)\n")],
+        "build_model pops the maps from the mapper's own dict: the second build transfers no label at all",
+    ),
     # seeded C05-3 re-based onto the per-occurrence form (its patch.diff was written against the dict form, pre-1a03052)
     "repl-substrates-only": (
         ISO,
